@@ -115,6 +115,17 @@ def gen_case(rng, index, tier):
             # be given as it is: '-v', '-rf', '--' are file names there)
             arg['spelling'] = './' + arg['spelling']
         args.append(arg)
+    if firsts and rng.random() < 0.25:
+        # one more argument: a symbolic link TO an earlier argument (two
+        # entries, one realpath): each is trashed for itself
+        src = rng.choice(firsts)
+        if src.get('rel') and src.get('kind') in ('file', 'empty', 'tree', 'dir_empty'):
+            lname = 'lnk-to-arg-%d' % index
+            lrel = (L.cwd + '/' if L.cwd else '') + lname
+            L.add({'p': lrel, 't': 'l', 'to': rng.choice(
+                ['@/' + src['rel'], os.path.relpath('/' + src['rel'], '/' + L.cwd)])})
+            args.append({'spelling': lname, 'class': 'rel', 'kind': 'link_file',
+                         'rel': lrel, 'target': src['rel'], 'acls': 'ok-link'})
     rng.shuffle(args)
     # a duplicate must come after its original
     seen = set()
@@ -128,6 +139,10 @@ def gen_case(rng, index, tier):
             seen.add(a['spelling'])
     args = ordered + late
     opt = rng.choice(['none', 'none', '-f', '-i', '-v', '-if'])
+    if any(a.get('spelling', '').startswith('lnk-to-arg-') for a in args) and 'i' in opt:
+        # (whether the link is asked about depends on whether its target has
+        # gone already: which reply goes where is not modelled)
+        opt = rng.choice(['none', '-f', '-v'])
     if any(a.get('dup') for a in args) and 'i' in opt:
         # a duplicate under -i is prompted again while the entry still exists:
         # which reply goes where depends on earlier answers - not modelled
